@@ -143,21 +143,38 @@ theorem fastPath_sound (vs : List Val) (bytes : List UInt8) (h : fastPath vs = s
   | nil => simp [fastPath] at h; subst h; simp [toBRList, bytesToBits]
   | cons v vs ih =>
     cases v with
-    | num n =>
-      simp only [fastPath] at h
-      split at h
-      · rename_i hn
-        cases hf : fastPath vs with
-        | none => simp [hf] at h
-        | some rest =>
-          simp [hf] at h; subst h
-          simp only [toBRList, toBR, byteBits, if_true]
-          rw [if_neg (by omega), ih rest hf]
-          simp only [bytesToBits_cons, byteToBits]
-          congr 2
-          have : n.toNat < 256 := by omega
-          simp [Nat.mod_eq_of_lt this]
-      · simp at h
+    | num n r =>
+      cases r with
+      | int =>
+        simp only [fastPath] at h
+        split at h
+        · rename_i hn
+          cases hf : fastPath vs with
+          | none => simp [hf] at h
+          | some rest =>
+            simp [hf] at h; subst h
+            simp only [toBRList, toBR, byteBits, if_true]
+            rw [if_neg (by omega), ih rest hf]
+            simp only [bytesToBits_cons, byteToBits]
+            congr 2
+            have : n.toNat < 256 := by omega
+            simp [Nat.mod_eq_of_lt this]
+        · simp at h
+      | big =>
+        simp only [fastPath] at h
+        split at h
+        · rename_i hn
+          cases hf : fastPath vs with
+          | none => simp [hf] at h
+          | some rest =>
+            simp [hf] at h; subst h
+            simp only [toBRList, toBR, byteBits, if_true]
+            rw [if_neg (by omega), ih rest hf]
+            simp only [bytesToBits_cons, byteToBits]
+            congr 2
+            have : n.toNat < 256 := by omega
+            simp [Nat.mod_eq_of_lt this]
+        · simp at h
     | str s =>
       simp only [fastPath] at h
       cases hf : fastPath vs with
@@ -233,7 +250,7 @@ theorem newBin_wf (bits : Bits) (u : Nat) : (newBin bits u).WF := by simp [Bin.W
 theorem newBin_bits (bits : Bits) (u : Nat) : (newBin bits u).bits = bits := by
   simp [Bin.bits, newBin, slice_zero_length]
 
-theorem toNumber_eq (b : Bin) (hw : b.WF) : b.toNumber = .ok (.num (ofBitsBE b.bits)) := by
+theorem toNumber_eq (b : Bin) (hw : b.WF) : b.toNumber = .ok (.num (ofBitsBE b.bits) .big) := by
   have hl := bits_length b hw
   unfold Bin.WF at hw
   simp only [Bin.toNumber, rangeBits_ok _ _ _ hw, bind, Except.bind, pure, Except.pure]
@@ -344,7 +361,7 @@ theorem mapM_ok {α β} (xs : List α) (f : α → Outcome β) (g : α → β) (
     rfl
 
 theorem index_in_range (b : Bin) (i : Nat) (hi : i < b.length) (hw : b.WF) :
-    b.index i = .ok (.num (ofBitsBE (slice b.src (b.start + i * b.unit) b.unit))) := by
+    b.index i = .ok (.num (ofBitsBE (slice b.src (b.start + i * b.unit) b.unit)) .big) := by
   have h1 : clampIndex (i : Int) (-1) (b.length : Int) = i := clampIndex_id _ _ _ (by omega) (by omega) (by omega)
   have hreach : b.length * b.unit ≤ b.len := Nat.div_mul_le_self _ _
   have h3 : (i + 1) * b.unit ≤ b.length * b.unit := Nat.mul_le_mul_right _ (by omega)
@@ -388,12 +405,12 @@ theorem toBitsOp_is_bin (u : Nat) (k : Bool) (p : Int) (v0 v : Val) (h : toBitsO
       · simp at h
       · simp at h; exact ⟨_, h.symm⟩
 
-theorem index_val (b : Bin) (i : Int) (v : Val) (h : b.index i = .ok v) : v = .null ∨ ∃ n, v = .num n := by
+theorem index_val (b : Bin) (i : Int) (v : Val) (h : b.index i = .ok v) : v = .null ∨ ∃ n r, v = .num n r := by
   simp only [Bin.index, bind, Except.bind, pure, Except.pure] at h
   repeat' split at h
   all_goals first
     | (cases h; exact Or.inl rfl)
-    | (cases h; exact Or.inr ⟨_, rfl⟩)
+    | (cases h; exact Or.inr ⟨_, _, rfl⟩)
     | cases h
 
 theorem mapM_index_wf (b : Bin) (ks : List Nat) (vs : List Val)
@@ -411,7 +428,7 @@ theorem mapM_index_wf (b : Bin) (ks : List Nat) (vs : List Val)
       | ok v2 =>
         simp [h1, h2] at h; subst h
         refine ⟨?_, ih v2 h2⟩
-        rcases index_val b _ _ h1 with rfl | ⟨n, rfl⟩ <;> simp [Val.AllWF]
+        rcases index_val b _ _ h1 with rfl | ⟨n, r, rfl⟩ <;> simp [Val.AllWF]
 
 theorem onBin_ok (v0 : Val) (f : Bin → Outcome Val) (v : Val) (h : onBin v0 f = .ok v) : ∃ b, v0 = .bin b ∧ f b = .ok v := by
   cases v0 <;> simp [onBin] at h
